@@ -143,6 +143,9 @@ pub struct Beh {
     /// free-form tag from the spec (which branch generated this)
     #[serde(default)]
     pub tag: String,
+    /// why the specification expects a refusal, when there is a single named reason
+    #[serde(default)]
+    pub note: String,
 }
 
 #[derive(Serialize, Clone, Debug, Default)]
